@@ -12,8 +12,18 @@ stores `Store`.  Side conditions, each guaranteed by the parser / compiler:
 keys are distinct).
 
 `valid t v` is C17's clean validation (`IsValidJson`: no error, no alarm),
-`filter t v` C17's `FilterJson` – what the run time applies to every resolved
-reference (`resolvePath` / `LazyArgumentMap.Path` in martian/core/resolve.go).
+`filter t v` C17's `FilterJson`.
+
+TWO run-time models (audit round 4, H1).  §3 is about the VALUE-LEVEL model
+`eval` / `project` followed by ONE `filter t` of the result: that is not the
+order in which the run time works, and its theorems are corollaries about
+values only.  §3b is about `evalT` / `pathVal` / `wholeRT`
+(Martian/TypingRun.lean), a transcription of `LazyArgumentMap.Path` /
+`resolvePath` / `LazyArgumentMap.filter` (martian/core/resolve.go): the
+destination type is peeled while the value is projected, `FilterJson` is applied
+leaf-wise, and a filter error IS the resolution error (`none`).  `pathVal` is
+compared with the real `Path` on every run (harness/c07_path.go).  The soundness
+statements the manifest cites are those of §3b.
 -/
 import Martian.Typing
 import Martian.TypingPipeline
@@ -21,6 +31,10 @@ import Martian.TypingStrict
 import Proofs.Typing
 import Proofs.TypingPipeline
 import Proofs.TypingStrict
+import Martian.TypingRun
+import Proofs.TypingRun
+import Martian.TypingProgram
+import Proofs.TypingProgram
 
 namespace Props.C07
 open Martian.Json Martian.Types Martian.Typing
@@ -128,7 +142,9 @@ example :
       eval (Γ0 .single) ρ0 e = some (.obj [(ka, .num (.int 1000000)), (kb, .arr [.str kx, .null])]) :=
   ⟨by decide, by decide, by decide, by decide, rfl⟩
 
-/-- PARTIAL.  Full statement (false, see the two witnesses below):
+/-- VALUE-LEVEL corollary (NOT the run time's order of operations – see §3b,
+`validExp_sound_rt_partial`; and `filter_no_error_partial` for the error flag).
+PARTIAL.  Full statement (false, see the two witnesses below):
   `StoreOk Γ ρ → validExp Γ t e → ∃ v, eval Γ ρ e = some v ∧ valid t (filter t v).1`.
 Proved under `holeFree Γ t e`: no reference inside `e` is bound across one of
 the two assignability holes of C17 (`noHole`: a directory-like typed map from a
@@ -286,7 +302,157 @@ example :
     validCall (Γ0 .single) [(ka, .base .float), (kb, tA)]
       [(kb, .plain (.call cP [ko])), (ka, .plain (.int 1))] = true := by decide
 
+/-! ### 3b. soundness against the run time AS THE CODE DOES IT (`evalT`, `pathVal`) -/
+
+/-- the auditor's program (H1): `struct A(int a)`, `stage PROD(out map<A>[] xs)`,
+`stage CONS(in map[] ms)`, `call CONS(ms = PROD.xs.a)` -/
+private abbrev h1Γ : Env :=
+  { self := [], calls := [(cP, { name := cP, mode := .single, src := none, outs := .cons kx (.arr (.tmap tA)) .nil })] }
+private abbrev h1ρ : Store :=
+  { self := [], calls := [(cP, .obj [(kx, .arr [.obj [(km, .obj [(ka, .num (.int 1))])]])])] }
+
+/-- NEGATIVE WITNESS for the code BEFORE repair 85e056c (`peelMapDOld`: an
+untyped `map` destination stays in place below a typed map of the source): the
+binding is accepted and `holeFree`, the store conforms, and `Path` fails (every
+projected int is filtered as a map: "cannot filter int to map").  Reproduced on
+the real run time (Tier A, corpus/C07/projection_through_typed_map_into_untyped_map_array.mro,
+and the `C07.path` differential) before the repair; with the repaired code the
+same binding delivers `[{"m": 1}]`. -/
+theorem h1_untyped_map_dest_old_code :
+    let t : Ty := .arr (.base .map)
+    let e : Exp := .call cP [kx, ka]
+    validExp h1Γ t e = true ∧ holeFree h1Γ t e = true ∧
+    refType h1Γ e = some (.arr (.tmap (.base .int))) ∧
+    valid (.struct cP (.cons kx (.arr (.tmap tA)) .nil)) (.obj [(kx, .arr [.obj [(km, .obj [(ka, .num (.int 1))])]])]) = true ∧
+    pathValG peelMapDOld (some t) (.struct cP (.cons kx (.arr (.tmap tA)) .nil))
+      (.obj [(kx, .arr [.obj [(km, .obj [(ka, .num (.int 1))])]])]) [kx, ka] = none ∧
+    evalT h1Γ h1ρ t e = some (.arr [.obj [(km, .num (.int 1))]]) :=
+  ⟨by decide, by decide, rfl, by decide, rfl, rfl⟩
+
+/-- `LazyArgumentMap.Path` is sound for the binding checker (PARTIAL: `noHole`,
+the two C17 holes): for a conforming value of the source type, a non-empty path
+whose compile-time type `s` is assignable to the destination type `t`, the walk
+with the destination peeled in lock-step SUCCEEDS (no "cannot filter", no
+missing key) and delivers a valid value of `t`. -/
+theorem path_sound_partial (src : Ty) (v : J) (p : List Bytes) (s t : Ty) (hp : p ≠ [])
+    (hv : valid src v = true) (hf : fieldType src p = some s) (ht : t.wf = true)
+    (ha : assignable t s = true) (hn : noHole t s = true) :
+    ∃ w, pathVal (some t) src v p = some w ∧ valid t w = true := by
+  obtain ⟨w, hw, hs⟩ := pathVal_sound src v p s t hp (shape_of_valid src v hv) hf ht ha hn
+  exact ⟨w, hw, valid_of_shape _ _ hs⟩
+
+/-- M1: filtering a conforming value to an assignable type reports NO error –
+neither fatal nor soft (PARTIAL: `noHole`) -/
+theorem filter_no_error_partial (t s : Ty) (v : J) (ht : t.wf = true) (hv : valid s v = true)
+    (ha : assignable t s = true) (hn : noHole t s = true) :
+    (filter t v).2 = .ok ∧ valid t (filter t v).1 = true :=
+  ⟨filter_ok_of_assignable t ht s v (shape_of_valid s v hv) ha hn,
+   valid_of_shape _ _ (shape_filter_of_assignable t ht s v (shape_of_valid s v hv) ha hn)⟩
+
+/-- PARTIAL (hypothesis `holeFree`; the full statement is false: `f9_binding_witness`,
+`f10_binding_witness`).  If the compiler accepts `e` for a parameter of type `t`
+and every pipeline input / every output of the calls made so far conforms to
+its declared type, then the run time – literals element-wise, references through
+`Path` with the destination peeled, leaf-wise `FilterJson` – resolves `e` WITHOUT
+ERROR to a value that validates cleanly against `t`. -/
+theorem validExp_sound_rt_partial (Γ : Env) (ρ : Store) (t : Ty) (e : Exp)
+    (hρ : StoreOk Γ ρ) (ht : t.wf = true) (he : e.wf = true)
+    (hv : validExp Γ t e = true) (hh : holeFree Γ t e = true) :
+    ∃ v, evalT Γ ρ t e = some v ∧ valid t v = true :=
+  validExp_sound_rt Γ ρ hρ t ht e he hv hh
+
+/-- non-vacuity: the struct literal with a coercion, a projection through an
+array and a reference into a call of the §3 example; and the H1 binding -/
+example :
+    let t : Ty := .struct [0x54] (.cons ka (.base .float) (.cons kb (.arr (.arr (.base .file))) (.cons kx tA .nil)))
+    let e : Exp := .map true (.cons ka (.int 3) (.cons kb (.self kx [kb]) (.cons kx (.call cP [ko]) .nil)))
+    validExp (Γ0 .single) t e = true ∧ holeFree (Γ0 .single) t e = true ∧
+    evalT (Γ0 .single) ρ0 t e = some (.obj [(ka, .num (.int 3)), (kb, .arr [.arr [.str kx], .null]),
+      (kx, .obj [(ka, .num (.int 1))])]) := ⟨by decide, by decide, rfl⟩
+
+/-- `x = split REF` (PARTIAL: `noHole` between the type of the whole collection
+and `t[]` / `map<t>`): the collection is resolved without error and every element
+handed to a fork conforms to the parameter type. -/
+theorem split_ref_sound_rt_partial (Γ : Env) (ρ : Store) (t : Ty) (e : Exp)
+    (hρ : StoreOk Γ ρ) (ht : t.wf = true) (he : ∃ id p, e = .self id p ∨ e = .call id p)
+    (hv : validBind Γ t (.split e) = true) (hh : bindHoleFreeT Γ t (.split e) = true) :
+    ∃ vs, deliveredT Γ ρ t (.split e) = some vs ∧ ∀ v ∈ vs, valid t v = true :=
+  split_ref_sound_rt Γ ρ hρ t ht e he hv hh
+
+example :
+    validBind (Γ0 .single) tA (.split (.self kx [])) = true ∧ bindHoleFreeT (Γ0 .single) tA (.split (.self kx [])) = true ∧
+    deliveredT (Γ0 .single) ρ0 tA (.split (.self kx [])) = some [.obj [(ka, .num (.int 1))], .null] ∧
+    validBind h1Γ (.base .map) (.split (.call cP [kx, ka])) = true ∧
+    deliveredT h1Γ h1ρ (.base .map) (.split (.call cP [kx, ka])) = some [.obj [(km, .num (.int 1))]] :=
+  ⟨by decide, by decide, rfl, by decide, rfl⟩
+
+/-! ### 3c. what `StoreOk` demands of MAPPED calls (M3) -/
+
+/-- stores for an array-called and a map-called producer conform (non-vacuity of
+`StoreOk` beyond single calls) -/
+theorem sample_store_ok_mapped :
+    StoreOk (Γ0 .arr) { self := ρ0.self, calls := [(cP, .arr [.obj [(ko, vW), (km, .obj [])], .null])] } ∧
+    StoreOk (Γ0 .map) { self := ρ0.self, calls := [(cP, .obj [(ka, .obj [(ko, vW), (km, .null)])])] } := by
+  refine ⟨⟨?_, ?_⟩, ⟨?_, ?_⟩⟩
+  · intro id t h
+    simp only [List.lookup] at h
+    split at h
+    · cases h
+      exact ⟨.arr [vW, .null], by simp [List.lookup, *], by decide⟩
+    · split at h
+      · cases h
+        exact ⟨.obj [(ka, vW)], by simp [List.lookup, *], by decide⟩
+      · cases h
+  · intro id sig h
+    simp only [List.lookup] at h
+    split at h
+    · cases h
+      exact ⟨.arr [.obj [(ko, vW), (km, .obj [])], .null], by simp [List.lookup, *], by decide⟩
+    · cases h
+  · intro id t h
+    simp only [List.lookup] at h
+    split at h
+    · cases h
+      exact ⟨.arr [vW, .null], by simp [List.lookup, *], by decide⟩
+    · split at h
+      · cases h
+        exact ⟨.obj [(ka, vW)], by simp [List.lookup, *], by decide⟩
+      · cases h
+  · intro id sig h
+    simp only [List.lookup] at h
+    split at h
+    · cases h
+      exact ⟨.obj [(ka, .obj [(ko, vW), (km, .null)])], by simp [List.lookup, *], by decide⟩
+    · cases h
+
+/-- NEGATIVE WITNESS for "stage outputs conform ⇒ StoreOk" on a MAP-called stage
+with a file-typed output: the keys of the merged value come from the split
+source (here `"a/b"`, legal in a `map<int>`), every fork's outputs conform to the
+stage's declared output struct, and still the merged `map<struct>` is not a
+valid value (the key is not a legal file name) – `StoreOk` is strictly more than
+the property's premise there; nothing in the compiler enforces it. -/
+theorem storeOk_map_call_key_witness :
+    let outs : Fields := .cons ko (.base .file) .nil
+    let sig : CallSig := { name := cP, mode := .map, src := some (.map none), outs := outs }
+    valid sig.struct (.obj [(ko, .str kx)]) = true ∧
+    valid (.tmap (.base .int)) (.obj [(kslash, .num (.int 1))]) = true ∧
+    valid sig.whole (.obj [(kslash, .obj [(ko, .str kx)])]) = false := by decide
+
+/-- `ref_iff` for references into calls -/
+theorem ref_iff_call (Γ : Env) (t : Ty) (id : Bytes) (p : List Bytes) (s : Ty)
+    (hr : refType Γ (.call id p) = some s) :
+    validExp Γ t (.call id p) = (shapeOk t s && assignable t s) := by
+  cases t with
+  | base b => simp [validExp, validBase, refOk, hr]
+  | _ => simp [validExp, refOk, hr]
+
 /-! ### 4. the rejection direction: what an accepted literal / reference must look like -/
+
+/-! (Most of §4, and `mapcall_dim`, `checkCalls_cons_iff`, `validPipeline_iff`, `validPipelineU_iff`,
+`unused_input_iff`, `validTop_iff`, `modsOk_iff`, `stageRetain_iff`, `pipeRetain_iff`,
+`wildcard_expansion_iff`, `wildcard_members_ref_iff` are DEFINITIONAL UNFOLDINGS: documentation of the
+model – "the model accepts iff the model's condition holds" –, not guarantees about the code.  Their
+weight is the per-run differential of the model against the real compiler.) -/
 
 /-- string literals are accepted exactly for `string`, `file`, `path` and user file types -/
 theorem str_literal_iff (Γ : Env) (t : Ty) (s : Bytes) :
@@ -968,14 +1134,22 @@ theorem unused_input_iff (p : Pipeline) (x : Bytes) :
     x ∈ unusedInputs p ↔ x ∈ p.ins.map Prod.fst ∧ x ∉ usedInputs p := by
   simp [unusedInputs, List.mem_filter]
 
-/-- a reference `self.x…` anywhere inside a written binding of a call uses `x` -/
+/-- a reference `self.x…` anywhere inside a written binding of a call uses `x`
+(with or without a wildcard after the written bindings) -/
 theorem binding_uses_input (p : Pipeline) (c : CallStm) (k : Bytes) (b : Bind) (x : Bytes)
-    (hc : c ∈ p.calls) (hw : c.wild = none) (hb : (k, b) ∈ c.binds) (hx : x ∈ b.selfIds) :
+    (hc : c ∈ p.calls) (hb : (k, b) ∈ c.binds) (hx : x ∈ b.selfIds) :
     x ∈ usedInputs p := by
   simp only [usedInputs, List.mem_append, List.mem_flatMap]
   refine Or.inl ⟨c, hc, Or.inl ?_⟩
-  simp only [usedByBinds, hw, allBinds, List.mem_append, List.mem_flatMap]
-  exact Or.inl ⟨(k, b), hb, hx⟩
+  simp only [usedByBinds, List.mem_append, List.mem_flatMap]
+  refine Or.inl ⟨(k, b), ?_, hx⟩
+  cases hw : c.wild with
+  | none => simpa [allBinds] using hb
+  | some w =>
+    simp only [allBinds]
+    cases expandWild { self := p.ins, calls := [] } c.callee.params w with
+    | none => simpa using hb
+    | some ex => simpa using Or.inl hb
 
 example :
     let st : Callee := { name := cP, isStage := true, params := [(ka, .base .int)], outs := .nil }
@@ -1044,5 +1218,178 @@ example :
     validTop (c (.map false (.cons ka (.int 2) .nil))) = true ∧ validTop (c (.self kx [])) = false ∧
       validTop { c .null with mods := { noMods with usings := [.pre true] } } = false ∧
       validTop { c .null with wild := some .self } = false := by decide
+
+/-! ### 11. calls and return statements against the run time as the code does it -/
+
+/-- SOUNDNESS of a whole call against the run time (wildcard included; PARTIAL:
+`bindHoleFreeT`): every declared parameter receives, through its one binding,
+only values that the run time resolves without error and that validate cleanly
+against the parameter's type. -/
+theorem call_sound_rt_partial (Γ : Env) (ρ : Store) (params : List (Bytes × Ty))
+    (binds : List (Bytes × Bind)) (w : Option Wild)
+    (hρ : StoreOk Γ ρ) (hp : ∀ x t, params.lookup x = some t → t.wf = true)
+    (h : validCallW Γ params binds w = true) :
+    ∃ bs, allBinds Γ params binds w = some bs ∧
+      ∀ x t, params.lookup x = some t → ∃ b, bs.lookup x = some b ∧
+        (b.wf = true → bindHoleFreeT Γ t b = true →
+          ∃ vs, deliveredT Γ ρ t b = some vs ∧ ∀ v ∈ vs, valid t v = true) := by
+  obtain ⟨bs, hbs, _, hall, _⟩ := validCallW_complete_args Γ params binds w h
+  refine ⟨bs, hbs, fun x t hx => ?_⟩
+  obtain ⟨b, hl, hv⟩ := hall x t hx
+  exact ⟨b, hl, fun hw hh => bind_sound_rt Γ ρ hρ t (hp x t hx) b hw hv hh⟩
+
+example :
+    let ps : List (Bytes × Ty) := [(ka, .base .float), (kb, .arr (.base .file))]
+    validCallW (Γ0 .single) ps [] (some (.ref (.call cP [ko]))) = true ∧
+    bindHoleFreeT (Γ0 .single) (.base .float) (.plain (.call cP [ko, ka])) = true ∧
+    deliveredT (Γ0 .single) ρ0 (.base .float) (.plain (.call cP [ko, ka])) = some [.num (.int 1)] := by
+  refine ⟨by decide, by decide, rfl⟩
+
+/-- RETURN BINDINGS against the run time (PARTIAL: `holeFree` at every return
+binding).  If the values of the pipeline's inputs and of the calls inside it
+conform, the struct of outputs an accepted pipeline delivers – every declared
+output resolved at its declared type – is produced without error and is a valid
+value of the pipeline's output struct type.  This is ONE invocation of the
+pipeline; that the environments `checkCalls` builds are conforming stores for
+every call of every nesting level is NOT a theorem (see the manifest note). -/
+theorem return_sound_rt_partial (Γ : Env) (ρ : Store) (name : Bytes) (outs : Fields)
+    (ret : List (Bytes × Bind)) (w : Option Wild)
+    (hρ : StoreOk Γ ρ) (hwf : (Ty.struct name outs).wf = true)
+    (h : checkReturn Γ outs ret w = true) :
+    ∃ bs, allBinds Γ outs.toList ret w = some bs ∧
+      ((∀ x e, (x, Bind.plain e) ∈ bs → e.wf = true) →
+       (∀ x b, (x, b) ∈ bs → ∃ e, b = .plain e) →
+       (∀ x t e, (x, t) ∈ outs.toList → bs.lookup x = some (.plain e) → holeFree Γ t (bindExp Γ t e) = true) →
+        ∃ vs, retValueT Γ ρ bs outs = some vs ∧ valid (.struct name outs) (.obj vs) = true) := by
+  obtain ⟨bs, hbs, _, hall, _⟩ := return_complete Γ outs ret w h
+  refine ⟨bs, hbs, fun hew hplain hhf => ?_⟩
+  have hwf' := Fields.wf_iff.mp (by simpa [Ty.wf] using hwf)
+  obtain ⟨vs, hvs, hkeys, hvals⟩ := retValueT_sound Γ ρ hρ bs outs (by
+    intro k t hkt
+    obtain ⟨b, hl, hv⟩ := hall k t (lookup_of_mem_nodup hwf'.1 hkt)
+    obtain ⟨e, rfl⟩ := hplain k b (lookup_mem hl)
+    exact ⟨hwf'.2 k t hkt, e, hl, hew k e (lookup_mem hl), hv, hhf k t e hkt hl⟩)
+  refine ⟨vs, hvs, ?_⟩
+  simp only [valid, check, beq_iff_eq, checkFields_ok_iff]
+  intro k t hkt
+  obtain ⟨v, hmem, hv⟩ := hvals k t hkt
+  exact ⟨v, getKey_of_mem_nodup (by rw [hkeys]; exact hwf'.1) hmem, by simpa [valid] using hv⟩
+
+/-- non-vacuity of `return_sound_rt_partial`: a pipeline returning `r = P.o.b`
+(`file[]`) and `a = P.o` narrowed to `struct A(int a)` from the sample store -/
+example :
+    let outs : Fields := .cons kb (.arr (.base .file)) (.cons ka tA .nil)
+    let ret : List (Bytes × Bind) := [(kb, .plain (.call cP [ko, kb])), (ka, .plain (.call cP [ko]))]
+    checkReturn (Γ0 .single) outs ret none = true ∧ (Ty.struct kx outs).wf = true ∧
+    retValueT (Γ0 .single) ρ0 ret outs = some [(kb, .arr [.str kx]), (ka, .obj [(ka, .num (.int 1))])] ∧
+    valid (.struct kx outs) (.obj [(kb, .arr [.str kx]), (ka, .obj [(ka, .num (.int 1))])]) = true :=
+  ⟨by decide, by decide, rfl, by decide⟩
+
+/-! ### 12. THE HEADLINE AS ONE THEOREM: whole programs -/
+
+/-- PARTIAL (hypotheses inside `progOk`: `noHole` at every reference – the C17
+holes F9 / F10 –, and no MAP call of a callable with file-typed outputs – fork
+keys would have to be legal file names, audit M3; both are decidable and are
+evaluated on every accepted generated program, driver op `C07.prog`).
+
+For every program `P` (pipeline definitions) with top-level call `top` that the
+compiler's rules accept – `validTop`, `validPipelineU` of every definition,
+every call of every body accepted in the environment of the calls before it
+(`progOk`) – and whose call graph below `top` is at most `n` deep (`fits`):
+
+IF every invocation of every STAGE the program calls returns outputs that
+conform to the stage's declared output types (`OracleOk` – the only assumption
+about the outside world),
+
+THEN the CHECKED run of the whole program succeeds: `run` resolves every binding
+of every call of every pipeline, in every fork of every mapped call, at every
+nesting level, with the faithful run-time model (`deliveredT` = `Path` with the
+destination peeled, leaf-wise `FilterJson`; literals element-wise), FAILS if a
+resolution fails or if a delivered value does not validate against the declared
+type of the parameter it is bound to (`argLists`), resolves every pipeline's
+return bindings at the declared output types – and the top-level outputs are a
+valid value of the declared output struct (`t`, `t[]` or `map<t>` for a mapped
+top-level call).
+
+Proof: induction over the calls of a body in dependency order
+(`stepCall_sound`, `runCalls_sound`: the store invariant `StoreOk` is
+established call by call, not assumed) inside an induction over the nesting
+depth (`run_sound`). -/
+theorem program_sound_partial (P : Prog) (O : Oracle) (top : CallStm) (n : Nat)
+    (hO : OracleOk P top O) (hP : progOk P top = true) (hn : fits P n top.callee = true) :
+    ∃ sh out, checkStm emptyEnv top = some sh ∧
+      runProgram P O n top =
+        some ({ self := [], calls := [(top.id, top.sig sh)] }, { self := [], calls := [(top.id, out)] }) ∧
+      valid (top.sig sh).whole out = true :=
+  runProgram_sound P O top n hO hP hn
+
+/-- what "the checked run succeeds" means for one call: every value in the
+argument lists has been validated against its parameter's declared type
+(documentation of `argLists`) -/
+theorem argLists_checked (Γ : Env) (ρ : Store) (bs : List (Bytes × Bind)) :
+    ∀ (params : List (Bytes × Ty)) (args : List (Bytes × Bool × List J)),
+      argLists Γ ρ bs params = some args →
+      ∀ a ∈ args, ∃ t, (a.1, t) ∈ params ∧ ∀ v ∈ a.2.2, valid t v = true
+  | [], args, h => by simp [argLists] at h; subst h; simp
+  | (x, t) :: r, args, h => by
+    simp only [argLists] at h
+    cases hb : bs.lookup x with
+    | none => simp [hb] at h
+    | some b =>
+      simp only [hb] at h
+      cases hd : deliveredT Γ ρ t b with
+      | none => simp [hd] at h
+      | some vs =>
+        simp only [hd] at h
+        by_cases hc : (vs.all fun v => valid t v) = true
+        · simp only [hc, if_true] at h
+          cases hr : argLists Γ ρ bs r with
+          | none => simp [hr] at h
+          | some as =>
+            simp only [hr, Option.some.injEq] at h
+            subst h
+            intro a ha
+            rcases List.mem_cons.mp ha with rfl | ha
+            · exact ⟨t, List.mem_cons_self, fun v hv => List.all_eq_true.mp hc v hv⟩
+            · obtain ⟨t', hm, hv⟩ := argLists_checked Γ ρ bs r as hr a ha
+              exact ⟨t', List.mem_cons_of_mem _ hm, hv⟩
+        · simp [hc] at h
+
+/-! a three-level program: `TOP` calls `L1`, which MAP-calls `L2` over an array
+(one element is the pipeline's input), which calls the stage `P` with a WILDCARD
+binding (`* = self`), returns a NARROWING (`x = P.o`: struct W → struct A) and a
+PROJECTION THROUGH A TYPED MAP (`b = P.m.a`: `map<A>` → `map<int>`); `L1` hands
+`L2.b` on as `map<int>[]`. -/
+private abbrev nL2 : Bytes := [0x4C, 0x32]
+private abbrev nL1 : Bytes := [0x4C, 0x31]
+private abbrev nTop : Bytes := [0x54]
+private abbrev stP : Callee :=
+  { name := cP, isStage := true, params := [(ka, .base .int)], outs := .cons ko tW (.cons km (.tmap tA) .nil) }
+private abbrev pL2 : Pipeline :=
+  { name := nL2, ins := [(ka, .base .int)], outs := .cons kx tA (.cons kb (.tmap (.base .int)) .nil),
+    calls := [{ id := cP, callee := stP, binds := [], wild := some .self, mods := noMods }],
+    ret := [(kx, .plain (.call cP [ko])), (kb, .plain (.call cP [km, ka]))], retWild := none, retain := [] }
+private abbrev pL1 : Pipeline :=
+  { name := nL1, ins := [(ka, .base .int)], outs := .cons kb (.arr (.tmap (.base .int))) .nil,
+    calls := [{ id := nL2, callee := pL2.callee, binds := [(ka, .split (.arr (.cons (.self ka []) (.cons (.int 2) .nil))))],
+                wild := none, mods := noMods }],
+    ret := [(kb, .plain (.call nL2 [kb]))], retWild := none, retain := [] }
+private abbrev pTop : Pipeline :=
+  { name := nTop, ins := [], outs := .cons kb (.arr (.tmap (.base .int))) .nil,
+    calls := [{ id := nL1, callee := pL1.callee, binds := [(ka, .plain (.int 1))], wild := none, mods := noMods }],
+    ret := [(kb, .plain (.call nL1 [kb]))], retWild := none, retain := [] }
+private abbrev prog3 : Prog := { pipes := [pL2, pL1, pTop] }
+private abbrev top3 : CallStm := { id := nTop, callee := pTop.callee, binds := [], wild := none, mods := noMods }
+/-- the outside world: the stage returns `o = {a: 1, b: ["x"]}`, `m = {"x": {a: 5}}` -/
+private abbrev oracle3 : Oracle := fun _ _ => .obj [(ko, vW), (km, .obj [(kx, .obj [(ka, .num (.int 5))])])]
+
+/-- non-vacuity of `program_sound_partial`: all hypotheses hold for the
+three-level program, and the checked run delivers `b = [{"x": 5}, {"x": 5}]` -/
+example :
+    progOk prog3 top3 = true ∧ fits prog3 4 top3.callee = true ∧ fits prog3 3 top3.callee = false ∧
+    valid (.struct cP stP.outs) (oracle3 cP []) = true ∧
+    (runProgram prog3 oracle3 4 top3).map (fun s => s.2.calls) =
+      some [(nTop, .obj [(kb, .arr [.obj [(kx, .num (.int 5))], .obj [(kx, .num (.int 5))]])])] :=
+  ⟨by decide, by decide, by decide, by decide, rfl⟩
 
 end Props.C07
